@@ -58,6 +58,14 @@ def run(res):
             if r >= 1:
                 cases.append((head + ".dseg\n.org %d\nv: .byte 1\n" % (rstart + r - 1), exp if rstart + r - 1 > 0 else exp, name, "ram/org"))
         cases.append((head + ".device %s\n" % name, "ERR", name, "second-device"))
+        # the device may be selected anywhere: late in the file, inside a taken conditional, through a macro call
+        for how, sel in (("late", "nop\n.device %s\n" % name), ("conditional", ".if 1\n.device %s\n.endif\n" % name),
+                         ("macro", ".macro pick\n.device %s\n.endm\n pick\n" % name), ("macro-late", ".macro pick\n.device %s\n.endm\nnop\n pick\n" % name)):
+            for delta, exp in ((0, "OK"), (1, "ERR")):
+                if rsize + delta >= 0:
+                    cases.append((sel + ".dseg\n.byte %d\n" % (rsize + delta), exp, name, "ram/reserve-device-" + how))
+                if eep + delta >= 1:
+                    cases.append((sel + ".eseg\n.byte %d\n" % (eep + delta), exp, name, "eeprom/reserve-device-" + how))
     cases.append((".device NoSuchPart\n", "ERR", None, "unknown-device"))
     cases.append((".device atmega8\n", "ERR", None, "unknown-device"))
     cases.append(("nop\n", "OK", "-", "default"))
@@ -74,7 +82,7 @@ def run(res):
             d = rows[name]
             if (a["flash"], a["eesize"], a["ram"]) != (d[1], d[4], d[3]):
                 P.fail(res, "builder::build_str", short, "reported sizes %s" % ((d[1], d[4], d[3]),), "%s" % ((a["flash"], a["eesize"], a["ram"]),), "sizes")
-            if kind == "ram/reserve":
+            if kind.startswith("ram/reserve"):
                 want = int(re.search(r"\.byte (\d+)", text).group(1))
                 if a["fill"] != want:
                     P.fail(res, "builder::build_str", short, "ram_filling %d" % want, "ram_filling %d" % a["fill"], "ram-filling")
